@@ -40,11 +40,30 @@ def mime_of(name):
     return "application/octet-stream"
 
 
-def content(name_or_mime, seed, n):
+MAGICS = [None, None, None, None, None, None, "gzip_magic", "gzip_stream",
+          "jpeg_magic", "zlib_stream", "json_like"]
+
+
+def content(name_or_mime, seed, n, magic=None):
+    """Payload bytes.  ``magic``: contents that *look like* a container
+    format the storage layer knows (gzip, JPEG, JSON) although they are just
+    the caller's bytes -- storage must return them verbatim."""
     if name_or_mime == "application/json":
         body = payload(seed, max(0, (n - 8) // 2)).hex().encode()
         return b'{"v":"' + body + b'"}'
-    return payload(seed, n)
+    data = payload(seed, n)
+    if magic == "gzip_magic":
+        return b"\x1f\x8b\x08\x00" + data
+    if magic == "gzip_stream":
+        import gzip
+        return gzip.compress(data, 1, mtime=0)
+    if magic == "zlib_stream":
+        return zlib.compress(data)
+    if magic == "jpeg_magic":
+        return b"\xff\xd8\xff\xe0" + data
+    if magic == "json_like":
+        return b'{"a": 1}' + data
+    return data
 
 
 def coords_of(i):
@@ -146,7 +165,7 @@ class C12(Check):
                                "fetch_chunk", "fetch_chunk"])
             op = {"op": kind, "h": rng.randrange(nh),
                   "n": rng.choice(SIZES), "ps": rng.randrange(1 << 30),
-                  "ow": rng.random() < 0.5}
+                  "ow": rng.random() < 0.5, "magic": rng.choice(MAGICS)}
             if kind.endswith("chunk"):
                 op["key"] = rng.choice(keys)
                 op["ci"] = rng.randrange(6)
@@ -233,7 +252,9 @@ class C12(Check):
                 if kind == "store_file":
                     name = op["name"]
                     mime = mime_of(name)
-                    buf = content(mime, op["ps"], op["n"])
+                    buf = content(mime, op["ps"], op["n"], op.get("magic"))
+                    if op.get("magic"):
+                        res.probe("magic_payload")
                     s, v = sut(acc.store_file, name, buf, mime_type=mime,
                                overwrite=op["ow"])
                     exists = name in model
@@ -309,7 +330,9 @@ class C12(Check):
                     key, ci = op["key"], op["ci"]
                     mime = KEYS[key]
                     co = tuple(coords_of(ci))
-                    buf = payload(op["ps"], op["n"])
+                    buf = content(mime, op["ps"], op["n"], op.get("magic"))
+                    if op.get("magic"):
+                        res.probe("magic_payload")
                     kw = {"mime_type": mime}
                     if op["ow"] is not None:
                         kw["overwrite"] = op["ow"]
